@@ -422,9 +422,14 @@ Options:
 			}
 			return
 		}
+		{{- if .DefaultFunc.Args}}
+		logger.Printf("not enough arguments for target \"{{.DefaultFunc.TargetName}}\", expected {{len .DefaultFunc.Args}}, got 0\n")
+		os.Exit(2)
+		{{- else}}
 		{{.DefaultFunc.ExecCode}}
 		handleError(logger, ret)
 		return
+		{{- end}}
 	{{- else}}
 		if err := list(); err != nil {
 			logger.Println("Error:", err)
